@@ -45,7 +45,7 @@ def correspondence(ctx):
     def on_history(seed, pname, p, h):
         rep.dist['switches'] += _count_switches(h)
         if _count_switches(h) >= 2:
-            rep.nontrivial.add(('switch2', pname, seed))
+            rep.dist['histories_with_2plus_switches'] += 1
     F.histories(ctx, rep, ['switchy', 'switchy-proj', 'switchy-fleet', 'basic'], ctx.n(40, 800), 'corr', on_history=on_history)
 
 
